@@ -91,7 +91,15 @@ def run_unit(verif, name, pid, tier, scratch):
     O.clauses_total = len(ci)
     mine = {k for k in ci if (label_props(k[1])[0] is None or pid in label_props(k[1])[0])}
     O.clauses_for_property = len(mine)
-    O.verus_items = R.verified + R.errors
+    # extracted functions all of whose labelled clauses belong to other properties do not count for this one
+    by_item = {}
+    for (it, lab) in ci:
+        ps_, _n = label_props(lab)
+        by_item.setdefault(it, []).append(ps_ is None or pid in ps_)
+    fn_ids = {ex.id for ex in B.items if ex.is_fn}
+    foreign_items = {it for it, flags in by_item.items() if it in fn_ids and not any(flags)}
+    foreign_failed = {d.item for d in R.diags if d.item in foreign_items}
+    O.verus_items = R.verified + R.errors - len(foreign_items)
     failed_labels = set()
     for d in R.diags:
         ps, _ = label_props(d.label)
@@ -110,9 +118,9 @@ def run_unit(verif, name, pid, tier, scratch):
         ps_, _n = label_props(d.label)
         foreign = ps_ is not None and pid not in ps_     # a clause that serves other properties only
         items_failing.setdefault(d.item, set()).add(d.name(name) in kf_names or foreign)
-    only_known_items = sum(1 for it, flags in items_failing.items() if all(flags))
+    only_known_items = sum(1 for it, flags in items_failing.items() if all(flags) and it not in foreign_items)
     O.obligations = O.verus_items + len(mine) - len(known_labels & mine) - only_known_items
-    O.discharged = R.verified + len(mine - failed_labels)
+    O.discharged = R.verified - len(foreign_items - foreign_failed) + len(mine - failed_labels)
     # samples: a few labelled clauses written out
     lines = B.text.split("\n")
     for (item, lab), lns in sorted(mine, key=lambda k: ci[k][0])[:0] or []:
